@@ -94,6 +94,26 @@ func main() {
 			if mode == 1 || mode == 3 {
 				t |= rng.Intn(3) << burndown.TreeMaxBinPower
 			}
+			if rng.Intn(60) == 0 {
+				// a negative argument must be refused with a panic before anything is changed (no op line: the later
+				// operations of the case show that the state is untouched)
+				args := [4]int{t, rng.Intn(l + 1), rng.Intn(3), 0}
+				which := rng.Intn(4)
+				args[which] = -1 - rng.Intn(3)
+				refused := false
+				func() {
+					defer func() {
+						if recover() != nil {
+							refused = true
+						}
+					}()
+					f.Update(args[0], args[1], args[2], args[3])
+				}()
+				stats["negative-argument-requests"]++
+				if !refused {
+					failc("negative-argument", fmt.Sprintf("Update(%d, %d, %d, %d) was accepted", args[0], args[1], args[2], args[3]))
+				}
+			}
 			pos := rng.Intn(l + 1)
 			del := 0
 			if rng.Intn(2) == 0 && l-pos > 0 {
